@@ -195,6 +195,14 @@ func runC20(w *World, tier string, advMode string) (bool, interface{}) {
 	w.SetSeedTwice = w.Tape.Bool(1, 3, "setSeedTwice")
 	newIdx := make([]int, n)
 	newKeys := map[string][]byte{}
+	// one participant is left out of the list of new communication keys (the file then carries
+	// no key for it): from the reinitialisation on nothing signed in its name may be accepted,
+	// least of all what is signed with its key from before
+	noNewKey := -1
+	if advMode == "c09" && w.Tape.Bool(1, 3, "participantWithoutNewKey") {
+		noNewKey = w.Tape.Choose(n, "whoHasNoNewKey")
+		w.Stats.Fault("participant-without-a-new-key-in-the-reinit-file")
+	}
 	for i := 0; i < n; i++ {
 		idx, err := addReinitParticipant(w, i)
 		if err != nil {
@@ -202,7 +210,9 @@ func runC20(w *World, tier string, advMode string) (bool, interface{}) {
 			return false, nil
 		}
 		newIdx[i] = idx
-		newKeys[w.Nodes[idx].Name] = w.Nodes[idx].Pub
+		if i != noNewKey {
+			newKeys[w.Nodes[idx].Name] = w.Nodes[idx].Pub
+		}
 		op := &Operator{L: c2.L, Idx: idx}
 		c2.Ops = append(c2.Ops, op)
 		c2.L.Actors = append(c2.L.Actors, op)
@@ -437,6 +447,13 @@ func runC20(w *World, tier string, advMode string) (bool, interface{}) {
 			case "c09":
 				kind := c09Kinds[w.Tape.Choose(len(c09Kinds), "kind")]
 				x := mutateAuth(w, m, by, kind)
+				if oldI := posOf(newIdx, by); oldI >= 0 && (oldI == noNewKey || w.Tape.Bool(1, 4, "oldKey?")) {
+					// the genuine payload under a signature made with the sender's key from BEFORE
+					// the reinitialisation (the key whose loss or exposure made it necessary)
+					kind = "signed-with-the-senders-key-from-before-the-reinitialisation"
+					x = m
+					x.Signature = ed25519.Sign(w.Nodes[oldI].Priv, x.Bytes())
+				}
 				if bytes.Equal(x.Data, m.Data) && bytes.Equal(x.Signature, m.Signature) && x.SenderAddr == m.SenderAddr {
 					return
 				}
@@ -535,6 +552,15 @@ func runC20(w *World, tier string, advMode string) (bool, interface{}) {
 	}
 	w.Abstract[fmt.Sprintf("log014=%v/junk=%v/signedBefore=%v", variant014, junk, signedBefore)] = true
 	return judged > 0, map[string]interface{}{"n": n, "t": t, "log_0_1_4": variant014, "junk_in_log": junk, "signed_before_dump": signedBefore, "adv": advMode, "injected": kinds, "old_log_len": len(oldMsgs)}
+}
+
+func posOf(xs []int, v int) int {
+	for i, x := range xs {
+		if x == v {
+			return i
+		}
+	}
+	return -1
 }
 
 func statesOf(w *World, idx []int, round string) []string {
